@@ -21,6 +21,7 @@ ENGINE_OF = {
     "C11": "hal",
     "C13": "props",
     "C14": "sto", "C15": "sto", "C16": "sto",
+    "C17": "simcam", "C18": "simcam",
 }
 
 
